@@ -5,6 +5,7 @@ Cancellable = {}
 MaxGen = 1
 Kinds = {"notready", "ok"}
 MaxFlips = 1
+Reswap = FALSE
 Mutant = 3
 INIT Init
 NEXT Next
